@@ -35,7 +35,10 @@ func NewPresence(start xml.StartElement) (Presence, error) {
 			v.Lang = attr.Value
 			continue
 		}
-		if attr.Name.Space != "" && attr.Name.Space != start.Name.Space {
+		// The stanza's own attributes are unqualified. A prefixed attribute is a
+		// different attribute even if its prefix is bound to the namespace of the
+		// element itself (Namespaces in XML, section 6.2).
+		if attr.Name.Space != "" {
 			continue
 		}
 
